@@ -13,3 +13,4 @@ RECOVERY_ONLY = {"txf": '"ty":"conn_close"'}
 AMP_KINDS = ["reset", "datagram_received", "datagram_sent", "rxp", "txp", "txf", "endpoint_datagram_dropped", "endpoint_packet_sent", "dg", "panic", "stall"]
 CID_KINDS = ["reset", "tp", "txf", "rxf", "panic", "stall"]
 CID_ONLY = {"txf": "_cid", "rxf": "_cid"}
+LIVE_KINDS = ["reset", "rxp", "txp", "metrics", "conn_closed", "app_send_call", "app_send", "app_finish", "app_send_done", "app_eos", "app_send_err", "app_recv_err", "app_reset", "app_stop", "app_timeout", "sim_end", "panic", "stall"]
